@@ -187,13 +187,16 @@ contract(Contract(
 
 contract(Contract(
     target=N + "render_link_ref_def",
-    props=["C01", "C04", "C12"],
+    props=["C01", "C04", "C02", "C12"],
     params={"element": "ref:LinkDefEl"},
     self_cls="MarkdownNormalizer",
     setup=self_setup,
     calls={"LinkDefEl.dest": Callee("attr", ret="str"), "LinkDefEl.title": Callee("attr", ret="str"),
            "LinkDefEl.label": Callee("attr", ret="str"),
-           "_normalize_title_quotes": Callee("uf", ret="str", sig=["title"])},
+           "_normalize_title_quotes": Callee("uf", ret="str", sig=["title"]),
+           # (not used by the current body: a definition keeps its destination in the SOURCE spelling, so it must not be
+           # re-spelled; modelled so that a body that does is judged, not rejected)
+           "_link_destination": Callee("uf", ret="str", sig=["dest", "has_title"])},
     ensures={
         # label and destination verbatim; the title only through _normalize_title_quotes
         "definition": "implies(element.title == '', result == old(self._prefix) + '[' + element.label + ']: ' + element.dest + '\\n')"
